@@ -204,6 +204,9 @@ func (root *Root) regField(obj *Object, fd *FieldDef, goField string, args ...st
 	obj.mu.Lock()
 	meta := obj.meta
 	obj.mu.Unlock()
+	// The type as registered, methods are looked up on it. It must not be
+	// read again from obj outside of the lock.
+	objMeta := meta
 	if meta.Kind() == reflect.Ptr {
 		meta = meta.Elem()
 	}
@@ -218,8 +221,8 @@ func (root *Root) regField(obj *Object, fd *FieldDef, goField string, args ...st
 			return
 		}
 	}
-	for i := obj.meta.NumMethod() - 1; 0 <= i; i-- {
-		m := obj.meta.Method(i)
+	for i := objMeta.NumMethod() - 1; 0 <= i; i-- {
+		m := objMeta.Method(i)
 		if strings.EqualFold(m.Name, goField) {
 			fd.method = &m.Func
 			break
@@ -228,14 +231,14 @@ func (root *Root) regField(obj *Object, fd *FieldDef, goField string, args ...st
 	if fd.method != nil {
 		if 0 < len(args) {
 			if fd.args.Len() != len(args) {
-				return fmt.Errorf("%w: not enough arguments for field %s of %s", ErrMeta, goField, obj.meta)
+				return fmt.Errorf("%w: not enough arguments for field %s of %s", ErrMeta, goField, objMeta)
 			}
 			newArgs := argList{}
 			for _, arg := range args {
 				if a := fd.args.get(arg); a != nil {
 					_ = newArgs.add(a)
 				} else {
-					err = fmt.Errorf("%w: %s is not an argument on field %s of %s", ErrMeta, arg, goField, obj.meta)
+					err = fmt.Errorf("%w: %s is not an argument on field %s of %s", ErrMeta, arg, goField, objMeta)
 					break
 				}
 			}
@@ -243,7 +246,7 @@ func (root *Root) regField(obj *Object, fd *FieldDef, goField string, args ...st
 		}
 		return
 	}
-	return fmt.Errorf("%w: %s is not a field of %s", ErrMeta, goField, obj.meta)
+	return fmt.Errorf("%w: %s is not a field of %s", ErrMeta, goField, objMeta)
 }
 
 func (root *Root) addTypes(types ...Type) error {
